@@ -215,7 +215,7 @@ export async function check(group, records) {
 
 export function meta({ tier }) {
   return {
-    rule: 'G-DIR: spelling (10: v-kebab, v-multi-word, vCamel, vCamelMultiWord, upper-case first letter, v-show/vShow, ...) x `_modifier` suffix lists (4) x `:arg` (3) x value form (11: expr, call, [v], [v,"arg"], [v,argExpr], [v,[mods]], [v,[]], [v,"arg",[mods]], [v,argExpr,[mods]], string, absent) x host {element, component} x neighbours (7); combinations the statement does not decide (suffixes or :arg together with an array form that has its own argument/modifier slots) are skipped. ' + (tier === 'thorough' ? 'Full product x 3 option sets.' : 'Full spelling x suffix x arg x form product on a bare element + 12000 sampled others.') + ' v-html / v-text: 2 spellings x 5 value forms x 2 hosts x 6 neighbours. distinct_nontrivial = distinct feature tuples.',
+    rule: 'G-DIR: spelling (10: v-kebab, v-multi-word, vCamel, vCamelMultiWord, upper-case first letter, v-show/vShow, ...) x `_modifier` suffix lists (6, incl. hyphenated and digit-leading names) x `:arg` (3) x value form (14: unbraced / braced JSX element and fragment, expr, call, [v], [v,"arg"], [v,argExpr], [v,[mods]], [v,[]], [v,"arg",[mods]], [v,argExpr,[mods]], string, absent) x host {element, component} x neighbours (7); combinations the statement does not decide (suffixes or :arg together with an array form that has its own argument/modifier slots) are skipped. ' + (tier === 'thorough' ? 'Full product x 3 option sets.' : 'Full spelling x suffix x arg x form product on a bare element + 12000 sampled others.') + ' v-html / v-text: 2 spellings x 5 value forms x 2 hosts x 6 neighbours. distinct_nontrivial = distinct feature tuples.',
     exhaustive: [tier === 'thorough' ? 'spelling x suffixes x arg x form x host x neighbour' : 'spelling x suffixes x arg x form on a bare element', 'v-html/v-text product'],
     assumptions: ['`void 0` argument is the same as no argument', 'modifiers are compared as a set of keys mapped to true'],
   };
